@@ -18,8 +18,8 @@ CLAIMS = {
             'trusted: generated AST type specs (tools/gen_astspec.py), iterator wrapper specs, string rendering uninterpreted', '§5-C03'),
     'C04': ('proof', 'find_references_for_definition is proved to return exactly the reverse-index bucket of the definition\'s name filtered by "this usage resolves to the definition" (op_refs), find_fixture_definition (go-to-definition) is proved to resolve the first recorded usage under the cursor with the same resolve_usage function; lemmas: an entry is listed iff it resolves to D, unresolved usages are listed nowhere, one list element per index entry, goto on a usage == resolve_usage of that usage. The mirror between usages and usage_by_fixture is proved per mutator (unit index_maint).',
             'trusted: as C01; wf clause unique_at_line assumed; code-lens / call-hierarchy / CLI counts glue not covered', '§5-C04'),
-    'C16': ('proof', 'detect_scope_mismatches_in_file (after fix 898ebb4) is proved sound AND complete against is_mismatch: a pair (F, D) is reported iff F is the file\'s definition of a listed name, D is the definition the proved resolver selects from F\'s file for one of F\'s dependencies (own name -> overridden parent) and rank(F.scope) > rank(D.scope); the derived ordering of FixtureScope is checked exhaustively by Kani. Cycle detection is not under contract (known finding F-16b).',
-            'trusted: as C01 (resolver contract proved in unit resolver_core); HashSet/DashMap shims; wf_names assumed', '§5-C16'),
+    'C16': ('proof', 'Scope mismatch: detect_scope_mismatches_in_file (after fix 898ebb4) is proved sound AND complete against is_mismatch — a pair (F, D) is reported iff D is the definition the proved resolver selects from F\'s file for one of F\'s dependencies (own name -> overridden parent) and rank(F.scope) > rank(D.scope). Cycles: compute_fixture_cycles is proved SOUND (every reported path is a closed chain of the first-definition name graph, reported on the right fixture) and terminating (lexicographic measure over the explicit DFS stack); completeness and run-independence do not hold on the real code: known findings F-16b (graph from first()) and F-16c (hash-ordered DFS roots).',
+            'trusted: as C01; HashMap/HashSet shims; sort/join key model; derive(PartialOrd) via Kani', '§5-C16'),
     'C17': ('proof', 'Precision clause, availability part: is_available_fixture is proved to return true exactly when some registered definition of the name is in the same file, in a conftest.py whose directory is a prefix of the file path, a plugin or third-party definition; lemmas: a name no fixture carries is never available, a name is never available merely because an unrelated module defines it. The expression visitor (which uses are examined) and the quick fix are not covered.',
             'trusted: as C01 plus Path helper expressions moved into external_body helpers with assumed contracts', '§5-C17'),
     'C18': ('proof', 'The offered-set algebra of completion is proved exactly: filter_and_enrich_fixtures returns available filtered by !excluded in order, is_fixture_excluded/should_exclude_fixture/fixture_sort_priority equal their specs (self/cls, declared params, current fixture, narrower scope; same-file 0 < project 1 < plugin 2 < third-party 3); lemmas: every name once, excluded never offered. Context classification (where completion is offered) is not covered.',
